@@ -427,13 +427,30 @@ func (h *H) updateModel(s *step) {
 					merged = append(merged, h.tokSetFromCall(tc, &ss.Toks[i]))
 				}
 			}
-			if faulted || !r.OK {
+			if h.tokenWriteCertainlyLost(s) {
+				// the exchange succeeded at the provider, but the only fault of this check made the write of its result
+				// fail before it reached the store: the session does not hold the refreshed tokens
+			} else if faulted || !r.OK {
 				ss.Toks = append(ss.Toks, merged...)
 			} else if len(merged) > 0 {
 				ss.Toks = merged
 			}
 		}
 	}
+}
+
+// tokenWriteCertainlyLost: every fault that fired during the step hit SetTokenResponse and did so before the call took
+// effect (mode "before", or an outage below the store that fails every command of the call).
+func (h *H) tokenWriteCertainlyLost(s *step) bool {
+	if s.R == nil || s.R.FiredTo <= s.R.FiredFrom || s.R.FiredTo > len(h.w.Fired) {
+		return false
+	}
+	for _, f := range h.w.Fired[s.R.FiredFrom:s.R.FiredTo] {
+		if f.Kind != "store" || f.Op != "SetTokenResponse" || (f.Mode != "before" && f.Mode != "redis") {
+			return false
+		}
+	}
+	return true
 }
 
 // justified reports whether an OK answer of step s is justified by the abstract state (C01's criterion).
